@@ -215,6 +215,9 @@ pub fn label_config(cfg: &BuilderConfig, o: &mut Outcome) {
     if cfg.reuse_source {
         o.label("one-source-path-rewritten");
     }
+    if cfg.setters_last && !cfg.files.is_empty() {
+        o.label("setters-after-files");
+    }
 }
 
 impl Property for C06 {
@@ -233,7 +236,7 @@ impl Property for C06 {
         ]
     }
     fn required_labels(&self, _t: Tier) -> Vec<&'static str> {
-        vec!["root-level-file", "dot-style-destination", "inherited-mode", "comp-none", "comp-gzip", "comp-zstd", "comp-xz", "comp-bzip2", "signed", "scriptlet-verify", "scriptlet-pre_install", "dep-kind-0", "dep-kind-7", "packager-set", "group-set", "file-with-caps"]
+        vec!["setters-after-files", "root-level-file", "dot-style-destination", "inherited-mode", "comp-none", "comp-gzip", "comp-zstd", "comp-xz", "comp-bzip2", "signed", "scriptlet-verify", "scriptlet-pre_install", "dep-kind-0", "dep-kind-7", "packager-set", "group-set", "file-with-caps"]
     }
     fn phases(&self, tier: Tier) -> Vec<Phase<C06Case>> {
         vec![Phase::Random {
